@@ -112,21 +112,54 @@ def wired_slots(idx, ecls):
         raise AnalysisError('anchor vanished: %s.extract' % ecls.name)
     par = parents_of(fn)
     slots = {}
+
+    def is_gated(n):
+        cur = n
+        while cur in par:
+            p = par[cur]
+            if isinstance(p, ast.If) and any(cur is s for s in p.body):
+                for t in ast.walk(p.test):
+                    if isinstance(t, ast.Attribute) and isinstance(t.value, ast.Name) and t.value.id == 'DateTimeOptions' \
+                            and t.attr != 'NONE':
+                        return True
+            cur = p
+        return False
+
+    def config_slot_of(e):
+        if isinstance(e, ast.Attribute) and isinstance(e.value, ast.Attribute) and e.value.attr == 'config':
+            return e.attr
+        return None
+
+    # locals bound exactly once (candidates for a tuple / list of sub-extractors)
+    binds = {}
+    for n in ast.walk(fn):
+        if isinstance(n, ast.Assign):
+            for t in n.targets:
+                if isinstance(t, ast.Name):
+                    binds.setdefault(t.id, []).append(n.value)
+    loop_vars = {}      # loop variable -> (For node, [slots])
+    for n in ast.walk(fn):
+        if isinstance(n, ast.For) and isinstance(n.target, ast.Name):
+            it = n.iter
+            if isinstance(it, ast.Name) and len(binds.get(it.id, [])) == 1:
+                it = binds[it.id][0]
+            uses = [c for c in ast.walk(n) if isinstance(c, ast.Call) and isinstance(c.func, ast.Attribute) and c.func.attr == 'extract'
+                    and isinstance(c.func.value, ast.Name) and c.func.value.id == n.target.id]
+            if not uses:
+                continue
+            if not isinstance(it, (ast.Tuple, ast.List)) or not all(config_slot_of(e) for e in it.elts):
+                raise AnalysisError('%s.extract: sub-extractors are called in a loop over `%s`, which cannot be enumerated as a '
+                                    'tuple / list of self.config.<slot> references' % (k.name, ast.unparse(n.iter)[:60]))
+            loop_vars[n.target.id] = (n, [config_slot_of(e) for e in it.elts], uses)
     for n in ast.walk(fn):
         if isinstance(n, ast.Call) and isinstance(n.func, ast.Attribute) and n.func.attr == 'extract':
             r = n.func.value
-            if isinstance(r, ast.Attribute) and isinstance(r.value, ast.Attribute) and r.value.attr == 'config':
-                gated = False
-                cur = n
-                while cur in par:
-                    p = par[cur]
-                    if isinstance(p, ast.If) and any(cur is s for s in p.body):
-                        for t in ast.walk(p.test):
-                            if isinstance(t, ast.Attribute) and isinstance(t.value, ast.Name) and t.value.id == 'DateTimeOptions' \
-                                    and t.attr != 'NONE':
-                                gated = True
-                    cur = p
-                slots[r.attr] = slots.get(r.attr, True) and gated
+            sl = config_slot_of(r)
+            if sl:
+                slots[sl] = slots.get(sl, True) and is_gated(n)
+            elif isinstance(r, ast.Name) and r.id in loop_vars and any(n is u for u in loop_vars[r.id][2]):
+                for sl in loop_vars[r.id][1]:
+                    slots[sl] = slots.get(sl, True) and is_gated(n)
     return k, fn, slots
 
 
@@ -318,7 +351,12 @@ def rule_dispatch(chk, idx):
                 continue
             classes = slot_classes(idx, cfg, slot)
             if not classes:
-                raise AnalysisError('%s: slot %s is never assigned an extractor' % (cfg.name, slot))
+                chk.bad(rid, cfg.mod.path, 'DateTimeModel(%s, %s(%s))[%s]' % (pcls.name, ecls.name, cfg.name, slot),
+                        'slot wired under default options but never assigned an extractor',
+                        '%s.extract calls self.config.%s.extract(...) under default options, but %s leaves that slot without an '
+                        'extractor: the call raises for every query and the model returns no entity' % (ek.name, slot, cfg.name),
+                        efn.lineno)
+                continue
             for c in classes:
                 for t, why in emitted_types(idx, c).items():
                     types.setdefault(t, '%s via %s (%s)' % (c.name, slot, why))
